@@ -403,7 +403,8 @@ def run(chk, gate, status):
             if sp[0] == 'reject':
                 ok = impl[0] == 'exc'
             elif len(sp[1]) == 0:
-                ok = True    # an empty selection is not a documented case
+                # an empty selection is not a documented case: it may be refused or select nothing, never select wells
+                ok = impl[0] == 'exc' or (impl[0] == 'ok' and len(impl[1]) == 0)
             else:
                 ok = impl[0] == 'ok' and impl[1] == sp[1] and impl[2] == sp[2]
             if not ok:
